@@ -1,8 +1,11 @@
-(* C12: HashSet::pvFind(key) (HashSet.h:1043-1064) GENERATED (Gen_HSFind.pvFindKey: the walk over chained bucket generations,
-   `buckets = buckets->GetNextBuckets()`, stop at the first non-null iterator / at nullptr) refines the hand-written walks
-   TableP4.pfind_gens and TableO2.find_gens.  The per-generation search pvFind(indexCode, *buckets, pred), GetNextBuckets and
-   the hash are Section variables of the generated code; here they are instantiated by "generation i (0 = newest) lives at
-   pointer i+1, 0 is nullptr" and by the per-table models pfind / find.  Mutant J1 (the walk never advances) breaks hs_loop. *)
+(* C12: the two Find functions of HashSet.h GENERATED and proved equal to the hand models.
+   Gen_HSFind.pvFindKey   = HashSet::pvFind(key) (HashSet.h:1043-1064): the walk over chained bucket generations
+   Gen_HSFindIn.pvFindIn  = static HashSet::pvFind(indexCode, buckets, itemPred) (HashSet.h:1066-1095): start bucket + probing loop;
+                            returns (iterator, indexCode) -- the by-reference indexCode becomes the bucket index on a hit.
+   The hash, the bucket arrays, the bucket methods and GetNextBuckets are Section variables of the generated code.  The theorems hold
+   for ANY values of these variables (any memory layout: generation pointers gptr i, bucket pointers bk_at bks j, iterator values)
+   that satisfy the stated pointwise hypotheses "the method on the pointer of bucket j returns what the generated bucket-level
+   leaf returns on the model's bucket j".  Mutants J1 (walk never advances) and K2 (probing stops early) break hs_loop / p4_loop. *)
 From Coq Require Import ZArith Bool List Lia.
 From MomoCommon Require Import GenPrelude.
 From C12 Require Import Bits Known Gen_Base Gen_P4 TableP4 TableP4_Proofs TableP4_Find Gen_O2 Gen_O2MP TableO2 TableO2_Proofs TableO2_Find TableOne TableOne_Proofs GensFind Gen_HSFind Gen_HSFindIn.
@@ -11,112 +14,103 @@ Local Open Scope Z_scope.
 
 Section Walk.
 Variable A : Type.
-Variable tf : Z -> A -> outcome (option (Z * Z)).     (* pvFind(indexCode, *buckets, pred) on one generation: (bucket, slot) *)
-Variable enc : option (Z * Z) -> Z.                    (* BucketIterator as a number; BucketIterator() = 0 *)
-Hypothesis enc_none : enc None = 0.
-Hypothesis enc_some : forall x, enc (Some x) <> 0.
+Variable tf : Z -> A -> outcome (option (Z * Z)).     (* the per-generation search: (bucket, slot) *)
+Variable it : nat -> Z -> Z -> Z.                      (* the BucketIterator of (generation, bucket, slot); BucketIterator() = 0 *)
+Hypothesis it_nz : forall g b s, it g b s <> 0.
 
-Fixpoint walk (h : Z) (gens : list A) : outcome (option (nat * Z * Z)) :=
+(* the hand-written walk; the generation index counts from the newest *)
+Fixpoint walk (k : nat) (h : Z) (gens : list A) : outcome (option (nat * Z * Z)) :=
   match gens with
   | [] => Ok None
   | a :: r =>
     match tf h a with
-    | Ok (Some (b, s)) => Ok (Some (O, b, s))
-    | Ok None => match walk h r with
-                 | Ok (Some (g, b, s)) => Ok (Some (S g, b, s))
-                 | Ok None => Ok None
-                 | Stuck => Stuck | Fuel => Fuel | Exn => Exn
-                 end
+    | Ok (Some (b, s)) => Ok (Some (k, b, s))
+    | Ok None => walk (S k) h r
     | Stuck => Stuck | Fuel => Fuel | Exn => Exn
     end
   end.
 
-Definition encw (r : outcome (option (nat * Z * Z))) : Z :=
-  match r with Ok (Some (_, b, s)) => enc (Some (b, s)) | _ => 0 end.
+(* what pvFind(key) hands to ConstPositionProxy: (indexCode, bucketIter) *)
+Definition resw (h : Z) (r : outcome (option (nat * Z * Z))) : Z * Z :=
+  match r with Ok (Some (g, b, s)) => (b, it g b s) | _ => (h, 0) end.
+
+Variable gens : list A.
+Variable gptr : nat -> Z.                              (* the Buckets* of generation i *)
+Variables (hash_of : Z -> Z) (find_in : Z -> Z -> Z -> Z * Z) (buckets_next : Z -> Z).
+
+Definition chain_ok : Prop :=
+  (forall i, (i < length gens)%nat -> gptr i <> 0) /\
+  (forall i, (S i < length gens)%nat -> buckets_next (gptr i) = gptr (S i)) /\
+  (forall i, S i = length gens -> buckets_next (gptr i) = 0).
+Definition find_in_ok : Prop := forall i a ic pred, nth_error gens i = Some a ->
+  find_in ic (gptr i) pred = match tf ic a with Ok (Some (b, s)) => (it i b s, b) | _ => (0, ic) end.
+
+Hypothesis Hchain : chain_ok.
+Hypothesis Hfind : find_in_ok.
+Hypothesis total : forall h, Forall (fun a => exists r, tf h a = Ok r) gens.
 
 Lemma skipn_nth_cons (l : list A) : forall (k : nat) a, nth_error l k = Some a -> skipn k l = a :: skipn (S k) l.
 Proof.
-  induction l as [|x xs IH]; intros [|k] a Hk; cbn in *; try discriminate.
+  induction l as [|x xs IH]; intros [|k] a Hk; cbn [nth_error skipn] in *; try discriminate.
   - injection Hk as ->. reflexivity.
   - apply IH. exact Hk.
 Qed.
 
-Variable gens : list A.
-(* the Section variables of Gen_HSFind, instantiated *)
-Definition find_in_of (ic p pred : Z) : Z :=
-  match nth_error gens (Z.to_nat (p - 1)) with
-  | Some a => match tf ic a with Ok r => enc r | _ => 0 end
-  | None => 0
-  end.
-Definition next_of (p : Z) : Z := if p <? Z.of_nat (length gens) then p + 1 else 0.
-
-Variable hash_of : Z -> Z.
-(* any find_in that agrees pointwise (e.g. the GENERATED per-generation search, HSFindIn_Refine.v) *)
-Variable find_in : Z -> Z -> Z -> Z.
-Hypothesis find_in_ok : forall ic p pred, find_in ic p pred = find_in_of ic p pred.
-Hypothesis total : forall h, Forall (fun a => exists r, tf h a = Ok r) gens.
-
-Lemma hs_loop ic pred : forall fuel k bi, (k < length gens)%nat -> (length gens - k <= fuel)%nat ->
-  exists bks, pvFindKey_loop0 false find_in next_of fuel ic pred bi (Z.of_nat k + 1)
-              = Ok (encw (walk ic (skipn k gens)), bks).
+Lemma hs_loop h pred : forall fuel k bi, (k < length gens)%nat -> (length gens - k <= fuel)%nat ->
+  exists bks, pvFindKey_loop0 false find_in buckets_next fuel pred bi (gptr k) h
+              = Ok (snd (resw h (walk k h (skipn k gens))), bks, fst (resw h (walk k h (skipn k gens)))).
 Proof.
+  destruct Hchain as (Hnz & Hnext & Hlast).
   induction fuel as [|fuel IH]; intros k bi Hk Hf; [lia|].
-  rewrite pvFindKey_loop0_eq. cbv zeta.
+  rewrite pvFindKey_loop0_eq.
   destruct (nth_error gens k) as [a|] eqn:Ha; [|apply nth_error_None in Ha; lia].
-  assert (Hfi : find_in_of ic (Z.of_nat k + 1) pred = match tf ic a with Ok r => enc r | _ => 0 end).
-  { unfold find_in_of. replace (Z.to_nat (Z.of_nat k + 1 - 1)) with k by lia. rewrite Ha. reflexivity. }
-  rewrite find_in_ok, Hfi. rewrite (skipn_nth_cons gens k a Ha). cbn [walk].
-  pose proof (total ic) as Ht. rewrite Forall_forall in Ht. destruct (Ht a (nth_error_In _ _ Ha)) as (r & Hr). rewrite Hr.
+  rewrite (Hfind k a h pred Ha). rewrite (skipn_nth_cons gens k a Ha). cbn [walk].
+  pose proof (total h) as Ht. rewrite Forall_forall in Ht. destruct (Ht a (nth_error_In _ _ Ha)) as (r & Hr). rewrite Hr.
   destruct r as [[b s]|].
-  - pose proof (enc_some (b, s)) as Hne. destruct (Z.eqb_spec (enc (Some (b, s))) 0); [contradiction|].
-    cbn [negb orb encw]. eexists. reflexivity.
-  - rewrite enc_none. cbn [Z.eqb negb orb]. unfold next_of.
-    destruct (Z.ltb_spec (Z.of_nat k + 1) (Z.of_nat (length gens))).
-    + destruct (Z.eqb_spec (Z.of_nat k + 1 + 1) 0); [lia|].
-      replace (Z.of_nat k + 1 + 1) with (Z.of_nat (S k) + 1) by lia.
-      fold next_of. destruct (IH (S k) 0 ltac:(lia) ltac:(lia)) as (bks & E). rewrite E. exists bks. f_equal. f_equal.
-      destruct (walk ic (skipn (S k) gens)) as [[[[g b] s]|]| | |]; reflexivity.
-    + cbn [Z.eqb]. assert (Hs : skipn (S k) gens = []) by (apply skipn_all2; lia). rewrite Hs. cbn [walk encw].
+  - pose proof (it_nz k b s) as Hne. destruct (Z.eqb_spec (it k b s) 0); [contradiction|].
+    cbn [negb orb resw fst snd]. eexists. reflexivity.
+  - cbn [Z.eqb negb orb].
+    destruct (Nat.eq_dec (S k) (length gens)) as [E|E].
+    + rewrite (Hlast k E). cbn [Z.eqb]. assert (Hs : skipn (S k) gens = []) by (apply skipn_all2; lia). rewrite Hs. cbn [walk resw fst snd].
       eexists. reflexivity.
+    + rewrite (Hnext k ltac:(lia)). pose proof (Hnz (S k) ltac:(lia)) as Hp. destruct (Z.eqb_spec (gptr (S k)) 0); [contradiction|].
+      apply IH; lia.
 Qed.
 
 (* the generated HashSet::pvFind(key) = the hand-written walk, for up to 70 chained generations *)
 Theorem pvFindKey_walk mCount key ht pred : mCount <> 0 -> gens <> [] -> (length gens <= 70)%nat ->
-  pvFindKey false hash_of find_in next_of mCount 1 key ht pred = Ok (encw (walk (hash_of key) gens)).
+  pvFindKey false hash_of find_in buckets_next mCount (gptr 0) key ht pred = Ok (resw (hash_of key) (walk 0 (hash_of key) gens)).
 Proof.
-  intros Hc Hg Hl. unfold pvFindKey. cbv zeta. destruct (Z.eqb_spec mCount 0); [contradiction|]. cbn [negb].
-  assert (Hlen : (0 < length gens)%nat) by (destruct gens; [contradiction|cbn; lia]).
+  intros Hc Hg Hl. unfold pvFindKey. destruct (Z.eqb_spec mCount 0); [contradiction|]. cbn [negb].
+  assert (Hlen : (0 < length gens)%nat) by (destruct gens; [contradiction|cbn [length]; lia]).
   destruct (hs_loop (hash_of key) pred fuel_of_pvFindKey 0%nat 0 Hlen) as (bks & E).
   { unfold fuel_of_pvFindKey. change (Z.to_nat 70) with 70%nat. lia. }
-  change (Z.of_nat 0 + 1) with 1 in E. rewrite E. cbn [skipn]. reflexivity.
+  cbn [skipn] in E. rewrite E. destruct (resw (hash_of key) (walk 0 (hash_of key) gens)); reflexivity.
 Qed.
+End Walk.
 
 (* areItemsNothrowRelocatable: only the newest generation is searched (older generations never exist then) *)
-Theorem pvFindKey_nothrow mCount key ht pred : mCount <> 0 ->
-  pvFindKey true hash_of find_in next_of mCount 1 key ht pred = Ok (find_in (hash_of key) 1 pred).
+Theorem pvFindKey_nothrow hash_of find_in buckets_next mBuckets mCount key ht pred : mCount <> 0 ->
+  pvFindKey true hash_of find_in buckets_next mCount mBuckets key ht pred
+  = Ok (snd (find_in (hash_of key) mBuckets pred), fst (find_in (hash_of key) mBuckets pred)).
 Proof.
-  intros Hc. unfold pvFindKey. cbv zeta. destruct (Z.eqb_spec mCount 0); [contradiction|]. cbn [negb].
-  unfold fuel_of_pvFindKey. change (Z.to_nat 70) with (S 69). rewrite pvFindKey_loop0_eq. cbv zeta.
-  rewrite orb_true_r. reflexivity.
+  intros Hc. unfold pvFindKey. destruct (Z.eqb_spec mCount 0); [contradiction|]. cbn [negb].
+  unfold fuel_of_pvFindKey. change (Z.to_nat 70) with (S 69). rewrite pvFindKey_loop0_eq.
+  destruct (find_in (hash_of key) mBuckets pred) as [bi ic]. rewrite orb_true_r. reflexivity.
 Qed.
 
 (* an empty set: the null iterator, no table is touched *)
-Theorem pvFindKey_empty nr key ht pred : pvFindKey nr hash_of find_in next_of 0 1 key ht pred = Ok 0.
+Theorem pvFindKey_empty nr hash_of find_in buckets_next mBuckets key ht pred :
+  pvFindKey nr hash_of find_in buckets_next 0 mBuckets key ht pred = Ok (hash_of key, 0).
 Proof. reflexivity. Qed.
-End Walk.
 
-(* ==== the per-generation search: static HashSet::pvFind(indexCode, buckets, itemPred) (HashSet.h:1066-1095) GENERATED
-   (Gen_HSFindIn.pvFindIn: start bucket, then `for (probe = 1; bucket->WasFull() && probe <= maxProbe; ++probe)`) refines the
-   hand-written TableP4.pfind / TableO2.find / TableOne.ofind.  Instantiation of its Section variables: a bucket pointer is the
-   bucket index (bk_at _ i = i); the bucket-level leaves are the generated ones the hand models already use; a non-null
-   BucketIterator is `it bucket slot <> 0` (an Item* determines bucket and slot), the null iterator is 0. ==== *)
-Definition idx_at (bks i : Z) : Z := i.
-Lemma idx_at_eq bks i : idx_at bks i = i.
-Proof. reflexivity. Qed.
-(* the generated loop returns (early-return value, loop state); the hand loops return the hit *)
-Definition conv {R S : Type} (f : R -> Z) (m : outcome (option R)) (g : outcome (option Z * S)) : Prop :=
+(* ==== the per-generation search ==== *)
+(* the generated loop returns (early-return value, loop state (bucket, bucketIndex, bucketIter, indexCode, probe)); the hand loops
+   return the hit.  On a hit the by-reference indexCode is the bucket index, on a miss it is unchanged. *)
+Definition conv {R : Type} (f idx_of : R -> Z) (ic : Z) (m : outcome (option R)) (g : outcome (option Z * (Z * Z * Z * Z * Z))) : Prop :=
   match m with
-  | Ok r => exists st, g = Ok (match r with Some x => Some (f x) | None => None end, st)
+  | Ok (Some x) => exists b0 bi0 it0 pr0, g = Ok (Some (f x), (b0, bi0, it0, idx_of x, pr0))
+  | Ok None => exists b0 bi0 it0 pr0, g = Ok (None, (b0, bi0, it0, ic, pr0))
   | Fuel => g = Fuel
   | _ => False
   end.
@@ -124,105 +118,111 @@ Definition conv {R S : Type} (f : R -> Z) (m : outcome (option R)) (g : outcome 
 Section InP4.
 Variable t : ptable.
 Variables (L key : Z).
-Variable it : Z -> Z -> Z.
-Hypothesis it_nz : forall b s, it b s <> 0.
+Variable itb : Z -> Z -> Z.                          (* iterator value of (bucket, slot) *)
+Hypothesis itb_nz : forall b s, itb b s <> 0.
+(* ANY bucket-array pointer bks and ANY values of the generated code's Section variables ... *)
+Variables (bks : Z) (bk_count bk_logcount : Z -> Z) (b_find : Z -> Z -> Z -> Z -> Z) (b_wasfull : Z -> bool) (bk_at : Z -> Z -> Z).
+(* ... such that the methods on the pointer of bucket i return what the generated bucket-level leaves return on the model's bucket i *)
+Definition p4_heap_ok : Prop :=
+  bk_count bks = wrapU 64 (Z.shiftl 1 L) /\ bk_logcount bks = L /\
+  (forall i, b_wasfull (bk_at bks i) = was_full (t i)) /\
+  (forall i params pred h, b_find (bk_at bks i) params pred h =
+     match pbucket_find (t i) key h with Ok r => if r =? 0 then 0 else itb i (r - 1) | _ => 0 end).
+Hypothesis Hheap : p4_heap_ok.
 
-Definition encI (r : option (Z * Z)) : Z := match r with Some (b, s) => it b s | None => 0 end.
-Definition p4_bfind (b params pred h : Z) : Z :=
-  match pbucket_find (t b) key h with Ok r => if r =? 0 then 0 else it b (r - 1) | _ => 0 end.
 Definition p4_next (i h c probe : Z) : Z := Gen_P4.GetNextBucketIndex i c.
-Definition p4_wasfull (b : Z) : bool := was_full (t b).
+Definition base_maxprobe (b lg : Z) : Z := Gen_Base.GetMaxProbe lg.
 Lemma p4_next_eq i h c probe : p4_next i h c probe = Gen_P4.GetNextBucketIndex i c.
 Proof. reflexivity. Qed.
 
-Lemma p4_bfind_eq b params pred h : p4_bfind b params pred h = match pbucket_find (t b) key h with Ok r => if r =? 0 then 0 else it b (r - 1) | _ => 0 end.
-Proof. reflexivity. Qed.
-
-Lemma p4_loop bc params bks h pred maxp : forall fuel idx bi ic probe,
-  conv (fun x : Z * Z => it (fst x) (snd x)) (pfind_loop fuel t bc idx probe maxp key h)
-       (pvFindIn_loop0 p4_next p4_bfind p4_wasfull idx_at fuel bc params bks h pred maxp idx idx bi ic probe).
+Lemma p4_loop bc params h pred maxp : forall fuel idx bi ic probe,
+  conv (fun x : Z * Z => itb (fst x) (snd x)) fst ic (pfind_loop fuel t bc idx probe maxp key h)
+       (pvFindIn_loop0 p4_next b_find b_wasfull bk_at fuel bc params bks h pred maxp (bk_at bks idx) idx bi ic probe).
 Proof.
+  destruct Hheap as (_ & _ & Hwf & Hbf).
   induction fuel as [|f IH]; intros idx bi ic probe; [reflexivity|].
-  rewrite pvFindIn_loop0_eq. cbn [pfind_loop]. cbv zeta. unfold p4_wasfull at 1.
-  destruct (was_full (t idx) && (probe <=? maxp)); [|eexists; reflexivity].
-  rewrite !idx_at_eq, !p4_next_eq, !p4_bfind_eq.
+  rewrite pvFindIn_loop0_eq. cbn [pfind_loop]. rewrite Hwf.
+  destruct (was_full (t idx) && (probe <=? maxp)); [|do 4 eexists; reflexivity].
+  cbv zeta. rewrite !p4_next_eq, !Hbf.
   destruct (pbucket_find_spec (t (Gen_P4.GetNextBucketIndex idx bc)) key h) as (r & Hr & _). rewrite Hr.
   destruct (Z.eqb_spec r 0).
   - cbn [Z.eqb negb]. apply IH.
-  - destruct (Z.eqb_spec (it (Gen_P4.GetNextBucketIndex idx bc) (r - 1)) 0) as [E|E]; [destruct (it_nz _ _ E)|].
-    cbn [negb]. eexists. reflexivity.
+  - destruct (Z.eqb_spec (itb (Gen_P4.GetNextBucketIndex idx bc) (r - 1)) 0) as [E|E]; [destruct (itb_nz _ _ E)|].
+    cbn [negb conv fst snd]. do 4 eexists. reflexivity.
 Qed.
 
-Definition p4_findin (h bks pred params : Z) : outcome Z :=
-  pvFindIn (fun _ => wrapU 64 (Z.shiftl 1 L)) (fun _ => L) Gen_Base.GetStartBucketIndex p4_next p4_bfind
-           (fun _ lg => Gen_Base.GetMaxProbe lg) p4_wasfull idx_at h bks pred params.
+Definition p4_findin (h pred params : Z) : outcome (Z * Z) :=
+  pvFindIn bk_count bk_logcount Gen_Base.GetStartBucketIndex p4_next b_find base_maxprobe b_wasfull bk_at h bks pred params.
 
-Theorem p4_findin_refines h bks pred params :
-  p4_findin h bks pred params = match pfind t L key h with Ok r => Ok (encI r) | Stuck => Stuck | Fuel => Fuel | Exn => Exn end.
+(* (iterator, indexCode) of the per-generation search *)
+Definition resI (h : Z) (r : option (Z * Z)) : Z * Z := match r with Some (b, s) => (itb b s, b) | None => (0, h) end.
+
+Theorem p4_findin_refines h pred params :
+  p4_findin h pred params = match pfind t L key h with Ok r => Ok (resI h r) | Stuck => Stuck | Fuel => Fuel | Exn => Exn end.
 Proof.
-  unfold p4_findin, pvFindIn, pfind. cbv zeta. rewrite !idx_at_eq, !p4_bfind_eq.
+  pose proof Hheap as (Hbc & Hlc & Hwf & Hbf).
+  unfold p4_findin, pvFindIn, pfind. cbv zeta. rewrite Hbc, Hlc, !Hbf. unfold base_maxprobe.
   set (bc := wrapU 64 (Z.shiftl 1 L)). set (start := Gen_Base.GetStartBucketIndex h bc).
   destruct (pbucket_find_spec (t start) key h) as (r & Hr & _). rewrite Hr.
   destruct (Z.eqb_spec r 0).
   - cbn [Z.eqb negb].
-    pose proof (p4_loop bc params bks h pred (Gen_Base.GetMaxProbe L) (S (Z.to_nat (Gen_Base.GetMaxProbe L))) start 0 h 1) as X. revert X. unfold conv.
-    destruct (pfind_loop (S (Z.to_nat (Gen_Base.GetMaxProbe L))) t bc start 1 (Gen_Base.GetMaxProbe L) key h) as [r0| | |]; intros X; [destruct X as [st X]|contradiction| |contradiction].
-    + rewrite X. destruct st as [[[[? ?] ?] ?] ?]. destruct r0 as [[b s]|]; reflexivity.
-    + rewrite X. reflexivity.
-  - destruct (Z.eqb_spec (it start (r - 1)) 0) as [E|E]; [destruct (it_nz _ _ E)|]. reflexivity.
+    pose proof (p4_loop bc params h pred (Gen_Base.GetMaxProbe L) (S (Z.to_nat (Gen_Base.GetMaxProbe L))) start 0 h 1) as X. revert X. unfold conv.
+    destruct (pfind_loop (S (Z.to_nat (Gen_Base.GetMaxProbe L))) t bc start 1 (Gen_Base.GetMaxProbe L) key h) as [[[b s]|]| | |]; intros X;
+      [destruct X as (b0 & bi0 & it0 & pr0 & X)|destruct X as (b0 & bi0 & it0 & pr0 & X)|contradiction| |contradiction]; rewrite X; reflexivity.
+  - destruct (Z.eqb_spec (itb start (r - 1)) 0) as [E|E]; [destruct (itb_nz _ _ E)|]. reflexivity.
 Qed.
 End InP4.
 
 Section InO2.
 Variable t : table.
 Variables (L key : Z).
-Variable it : Z -> Z -> Z.
-Hypothesis it_nz : forall b s, it b s <> 0.
+Variable itb : Z -> Z -> Z.
+Hypothesis itb_nz : forall b s, itb b s <> 0.
+Variables (bks : Z) (bk_count bk_logcount : Z -> Z) (b_find : Z -> Z -> Z -> Z -> Z) (b_maxprobe : Z -> Z -> Z) (b_wasfull : Z -> bool) (bk_at : Z -> Z -> Z).
+Definition o2_heap_ok : Prop :=
+  bk_count bks = wrapU 64 (Z.shiftl 1 L) /\ bk_logcount bks = L /\
+  (forall i, b_wasfull (bk_at bks i) = Gen_O2.WasFull (bst (t i)) (bsh (t i)) (bhp (t i))) /\
+  (forall i lg, b_maxprobe (bk_at bks i) lg = Gen_O2MP.GetMaxProbe (bst (t i))) /\
+  (forall i params pred h, b_find (bk_at bks i) params pred h =
+     match bucket_find (t i) key h with Ok r => if r =? 0 then 0 else itb i (r - 1) | _ => 0 end).
+Hypothesis Hheap : o2_heap_ok.
 
-Definition o2_bfind (b params pred h : Z) : Z :=
-  match bucket_find (t b) key h with Ok r => if r =? 0 then 0 else it b (r - 1) | _ => 0 end.
 Definition o2_next (i h c probe : Z) : Z := Gen_O2.GetNextBucketIndex i c probe.
-Definition o2_wasfull (b : Z) : bool := Gen_O2.WasFull (bst (t b)) (bsh (t b)) (bhp (t b)).
-Definition o2_maxprobe (b lg : Z) : Z := Gen_O2MP.GetMaxProbe (bst (t b)).
-
 Lemma o2_next_eq i h c probe : o2_next i h c probe = Gen_O2.GetNextBucketIndex i c probe.
 Proof. reflexivity. Qed.
 
-Lemma o2_bfind_eq b params pred h : o2_bfind b params pred h = match bucket_find (t b) key h with Ok r => if r =? 0 then 0 else it b (r - 1) | _ => 0 end.
-Proof. reflexivity. Qed.
-
-Lemma o2_loop bc params bks h pred maxp : forall fuel idx bi ic probe,
-  conv (fun x : Z * Z => it (fst x) (snd x)) (find_loop fuel t bc idx probe maxp key h)
-       (pvFindIn_loop0 o2_next o2_bfind o2_wasfull idx_at fuel bc params bks h pred maxp idx idx bi ic probe).
+Lemma o2_loop bc params h pred maxp : forall fuel idx bi ic probe,
+  conv (fun x : Z * Z => itb (fst x) (snd x)) fst ic (find_loop fuel t bc idx probe maxp key h)
+       (pvFindIn_loop0 o2_next b_find b_wasfull bk_at fuel bc params bks h pred maxp (bk_at bks idx) idx bi ic probe).
 Proof.
+  destruct Hheap as (_ & _ & Hwf & _ & Hbf).
   induction fuel as [|f IH]; intros idx bi ic probe; [reflexivity|].
-  rewrite pvFindIn_loop0_eq. cbn [find_loop]. cbv zeta. unfold o2_wasfull at 1.
-  destruct (Gen_O2.WasFull (bst (t idx)) (bsh (t idx)) (bhp (t idx)) && (probe <=? maxp)); [|eexists; reflexivity].
-  rewrite !idx_at_eq, !o2_next_eq, !o2_bfind_eq.
+  rewrite pvFindIn_loop0_eq. cbn [find_loop]. rewrite Hwf.
+  destruct (Gen_O2.WasFull (bst (t idx)) (bsh (t idx)) (bhp (t idx)) && (probe <=? maxp)); [|do 4 eexists; reflexivity].
+  cbv zeta. rewrite !o2_next_eq, !Hbf.
   destruct (bucket_find_spec (t (Gen_O2.GetNextBucketIndex idx bc probe)) key h) as (r & Hr & _). rewrite Hr.
   destruct (Z.eqb_spec r 0).
   - cbn [Z.eqb negb]. apply IH.
-  - destruct (Z.eqb_spec (it (Gen_O2.GetNextBucketIndex idx bc probe) (r - 1)) 0) as [E|E]; [destruct (it_nz _ _ E)|].
-    cbn [negb]. eexists. reflexivity.
+  - destruct (Z.eqb_spec (itb (Gen_O2.GetNextBucketIndex idx bc probe) (r - 1)) 0) as [E|E]; [destruct (itb_nz _ _ E)|].
+    cbn [negb conv fst snd]. do 4 eexists. reflexivity.
 Qed.
 
-Definition o2_findin (h bks pred params : Z) : outcome Z :=
-  pvFindIn (fun _ => wrapU 64 (Z.shiftl 1 L)) (fun _ => L) Gen_Base.GetStartBucketIndex o2_next o2_bfind
-           o2_maxprobe o2_wasfull idx_at h bks pred params.
+Definition o2_findin (h pred params : Z) : outcome (Z * Z) :=
+  pvFindIn bk_count bk_logcount Gen_Base.GetStartBucketIndex o2_next b_find b_maxprobe b_wasfull bk_at h bks pred params.
 
-Theorem o2_findin_refines h bks pred params :
-  o2_findin h bks pred params = match find t L key h with Ok r => Ok (encI it r) | Stuck => Stuck | Fuel => Fuel | Exn => Exn end.
+Theorem o2_findin_refines h pred params :
+  o2_findin h pred params = match find t L key h with Ok r => Ok (resI itb h r) | Stuck => Stuck | Fuel => Fuel | Exn => Exn end.
 Proof.
-  unfold o2_findin, pvFindIn, find. cbv zeta. rewrite !idx_at_eq, !o2_bfind_eq.
+  pose proof Hheap as (Hbc & Hlc & Hwf & Hmp & Hbf).
+  unfold o2_findin, pvFindIn, find. cbv zeta. rewrite Hbc, Hlc, !Hbf, !Hmp.
   set (bc := wrapU 64 (Z.shiftl 1 L)). set (start := Gen_Base.GetStartBucketIndex h bc).
   destruct (bucket_find_spec (t start) key h) as (r & Hr & _). rewrite Hr.
   destruct (Z.eqb_spec r 0).
-  - cbn [Z.eqb negb]. unfold o2_maxprobe at 1 2. set (mp := Gen_O2MP.GetMaxProbe (bst (t start))).
-    pose proof (o2_loop bc params bks h pred mp (S (Z.to_nat mp)) start 0 h 1) as X. revert X. unfold conv.
-    destruct (find_loop (S (Z.to_nat mp)) t bc start 1 mp key h) as [r0| | |]; intros X; [destruct X as [st X]|contradiction| |contradiction].
-    + rewrite X. destruct st as [[[[? ?] ?] ?] ?]. destruct r0 as [[b s]|]; reflexivity.
-    + rewrite X. reflexivity.
-  - destruct (Z.eqb_spec (it start (r - 1)) 0) as [E|E]; [destruct (it_nz _ _ E)|]. reflexivity.
+  - cbn [Z.eqb negb]. set (mp := Gen_O2MP.GetMaxProbe (bst (t start))).
+    pose proof (o2_loop bc params h pred mp (S (Z.to_nat mp)) start 0 h 1) as X. revert X. unfold conv.
+    destruct (find_loop (S (Z.to_nat mp)) t bc start 1 mp key h) as [[[b s]|]| | |]; intros X;
+      [destruct X as (b0 & bi0 & it0 & pr0 & X)|destruct X as (b0 & bi0 & it0 & pr0 & X)|contradiction| |contradiction]; rewrite X; reflexivity.
+  - destruct (Z.eqb_spec (itb start (r - 1)) 0) as [E|E]; [destruct (itb_nz _ _ E)|]. reflexivity.
 Qed.
 End InO2.
 
@@ -231,101 +231,114 @@ Variable t : otable.
 Variables (L key : Z).
 Variable it1 : Z -> Z.
 Hypothesis it1_nz : forall b, it1 b <> 0.
+Variables (bks : Z) (bk_count bk_logcount : Z -> Z) (b_find : Z -> Z -> Z -> Z -> Z) (b_wasfull : Z -> bool) (bk_at : Z -> Z -> Z).
+Definition one_heap_ok : Prop :=
+  bk_count bks = wrapU 64 (Z.shiftl 1 L) /\ bk_logcount bks = L /\
+  (forall i, b_wasfull (bk_at bks i) = Gen_One.WasFull (ost (t i))) /\
+  (forall i params pred h, b_find (bk_at bks i) params pred h = if obucket_find (t i) key h =? 0 then 0 else it1 i).
+Hypothesis Hheap : one_heap_ok.
 
-Definition encI1 (r : option Z) : Z := match r with Some b => it1 b | None => 0 end.
-Definition one_bfind (b params pred h : Z) : Z := if obucket_find (t b) key h =? 0 then 0 else it1 b.
 Definition one_next (i h c probe : Z) : Z := Gen_Base.GetNextBucketIndex i c.
-Definition one_wasfull (b : Z) : bool := Gen_One.WasFull (ost (t b)).
-
 Lemma one_next_eq i h c probe : one_next i h c probe = Gen_Base.GetNextBucketIndex i c.
 Proof. reflexivity. Qed.
 
-Lemma one_bfind_eq b params pred h : one_bfind b params pred h = if obucket_find (t b) key h =? 0 then 0 else it1 b.
-Proof. reflexivity. Qed.
-
-Lemma one_loop bc params bks h pred maxp : forall fuel idx bi ic probe,
-  conv it1 (ofind_loop fuel t bc idx probe maxp key h)
-       (pvFindIn_loop0 one_next one_bfind one_wasfull idx_at fuel bc params bks h pred maxp idx idx bi ic probe).
+Lemma one_loop bc params h pred maxp : forall fuel idx bi ic probe,
+  conv it1 (fun b : Z => b) ic (ofind_loop fuel t bc idx probe maxp key h)
+       (pvFindIn_loop0 one_next b_find b_wasfull bk_at fuel bc params bks h pred maxp (bk_at bks idx) idx bi ic probe).
 Proof.
+  destruct Hheap as (_ & _ & Hwf & Hbf).
   induction fuel as [|f IH]; intros idx bi ic probe; [reflexivity|].
-  rewrite pvFindIn_loop0_eq. cbn [ofind_loop]. cbv zeta. unfold one_wasfull at 1.
-  destruct (Gen_One.WasFull (ost (t idx)) && (probe <=? maxp)); [|eexists; reflexivity].
-  rewrite !idx_at_eq, !one_next_eq, !one_bfind_eq.
+  rewrite pvFindIn_loop0_eq. cbn [ofind_loop]. rewrite Hwf.
+  destruct (Gen_One.WasFull (ost (t idx)) && (probe <=? maxp)); [|do 4 eexists; reflexivity].
+  cbv zeta. rewrite !one_next_eq, !Hbf.
   destruct (Z.eqb_spec (obucket_find (t (Gen_Base.GetNextBucketIndex idx bc)) key h) 0).
   - cbn [Z.eqb negb]. apply IH.
   - destruct (Z.eqb_spec (it1 (Gen_Base.GetNextBucketIndex idx bc)) 0) as [E|E]; [destruct (it1_nz _ E)|].
-    cbn [negb]. eexists. reflexivity.
+    cbn [negb conv]. do 4 eexists. reflexivity.
 Qed.
 
-Definition one_findin (h bks pred params : Z) : outcome Z :=
-  pvFindIn (fun _ => wrapU 64 (Z.shiftl 1 L)) (fun _ => L) Gen_Base.GetStartBucketIndex one_next one_bfind
-           (fun _ lg => Gen_Base.GetMaxProbe lg) one_wasfull idx_at h bks pred params.
+Definition one_findin (h pred params : Z) : outcome (Z * Z) :=
+  pvFindIn bk_count bk_logcount Gen_Base.GetStartBucketIndex one_next b_find base_maxprobe b_wasfull bk_at h bks pred params.
+Definition resI1 (h : Z) (r : option Z) : Z * Z := match r with Some b => (it1 b, b) | None => (0, h) end.
 
-Theorem one_findin_refines h bks pred params :
-  one_findin h bks pred params = match ofind t L key h with Ok r => Ok (encI1 r) | Stuck => Stuck | Fuel => Fuel | Exn => Exn end.
+Theorem one_findin_refines h pred params :
+  one_findin h pred params = match ofind t L key h with Ok r => Ok (resI1 h r) | Stuck => Stuck | Fuel => Fuel | Exn => Exn end.
 Proof.
-  unfold one_findin, pvFindIn, ofind. cbv zeta. rewrite !idx_at_eq, !one_bfind_eq.
+  pose proof Hheap as (Hbc & Hlc & Hwf & Hbf).
+  unfold one_findin, pvFindIn, ofind. cbv zeta. rewrite Hbc, Hlc, !Hbf. unfold base_maxprobe.
   set (bc := wrapU 64 (Z.shiftl 1 L)). set (start := Gen_Base.GetStartBucketIndex h bc).
   destruct (Z.eqb_spec (obucket_find (t start) key h) 0).
   - cbn [Z.eqb negb].
-    pose proof (one_loop bc params bks h pred (Gen_Base.GetMaxProbe L) (S (Z.to_nat (Gen_Base.GetMaxProbe L))) start 0 h 1) as X. revert X. unfold conv.
-    destruct (ofind_loop (S (Z.to_nat (Gen_Base.GetMaxProbe L))) t bc start 1 (Gen_Base.GetMaxProbe L) key h) as [r0| | |]; intros X; [destruct X as [st X]|contradiction| |contradiction].
-    + rewrite X. destruct st as [[[[? ?] ?] ?] ?]. destruct r0 as [b|]; reflexivity.
-    + rewrite X. reflexivity.
+    pose proof (one_loop bc params h pred (Gen_Base.GetMaxProbe L) (S (Z.to_nat (Gen_Base.GetMaxProbe L))) start 0 h 1) as X. revert X. unfold conv.
+    destruct (ofind_loop (S (Z.to_nat (Gen_Base.GetMaxProbe L))) t bc start 1 (Gen_Base.GetMaxProbe L) key h) as [[b|]| | |]; intros X;
+      [destruct X as (b0 & bi0 & it0 & pr0 & X)|destruct X as (b0 & bi0 & it0 & pr0 & X)|contradiction| |contradiction]; rewrite X; reflexivity.
   - destruct (Z.eqb_spec (it1 start) 0) as [E|E]; [destruct (it1_nz _ E)|]. reflexivity.
 Qed.
 End InOne.
 
 (* ==== both generated functions composed: pvFind(key) calling pvFind(indexCode, *buckets, pred) on every generation ==== *)
-Definition unwrapZ (o : outcome Z) : Z := match o with Ok r => r | _ => 0 end.
+Definition unwrapP (ic : Z) (o : outcome (Z * Z)) : Z * Z := match o with Ok r => r | _ => (0, ic) end.
+
+(* walk (absolute generation index) vs the hand-written pfind_gens / find_gens (index relative to the remaining list) *)
+Definition shiftg (k : nat) (r : outcome (option (nat * Z * Z))) : outcome (option (nat * Z * Z)) :=
+  match r with Ok (Some (g, b, s)) => Ok (Some ((k + g)%nat, b, s)) | o => o end.
 
 (* ---- LimP4 ---- *)
 Section HSFindP4.
 Variables (H : Z).
 Variable hash : Z -> Z.
-Variable it : Z -> Z -> Z.
-Hypothesis it_nz : forall b s, it b s <> 0.
+Variable it : nat -> Z -> Z -> Z.
+Hypothesis it_nz : forall g b s, it g b s <> 0.
+Variables (gptr : nat -> Z) (bk_count bk_logcount : Z -> Z) (b_find : Z -> Z -> Z -> Z -> Z) (b_wasfull : Z -> bool)
+          (bk_at : Z -> Z -> Z) (buckets_next : Z -> Z).
+Variable gens : list (ptable * Z).
+Variable key : Z.
 
-Definition tfP4 (key : Z) (h : Z) (g : ptable * Z) := pfind (fst g) (snd g) key h.
-(* find_in of the generated pvFindKey := the generated pvFindIn on the generation the pointer names *)
-Definition p4_find_in (gens : list (ptable * Z)) (key ic p pred : Z) : Z :=
-  match nth_error gens (Z.to_nat (p - 1)) with
-  | Some g => unwrapZ (p4_findin (fst g) (snd g) key it ic p pred 0)
-  | None => 0
-  end.
+Definition tfP4 (h : Z) (g : ptable * Z) := pfind (fst g) (snd g) key h.
+(* every generation's bucket array behaves as its model table *)
+Definition p4_heaps_ok : Prop := forall i t L, nth_error gens i = Some (t, L) ->
+  p4_heap_ok t L key (it i) (gptr i) bk_count bk_logcount b_find b_wasfull bk_at.
+(* find_in of the generated pvFindKey := the generated pvFindIn *)
+Definition p4_find_in (ic p pred : Z) : Z * Z := unwrapP ic (p4_findin p bk_count bk_logcount b_find b_wasfull bk_at ic pred 0).
 
-Lemma pfind_gens_walk key h gens : pfind_gens gens key h = walk _ (tfP4 key) h gens.
+Lemma pfind_gens_walk h : forall l k, walk _ tfP4 k h l = shiftg k (pfind_gens l key h).
 Proof.
-  induction gens as [|[t L] r IH]; [reflexivity|]. cbn [pfind_gens walk]. unfold tfP4 at 1. cbn [fst snd].
-  rewrite IH. reflexivity.
+  induction l as [|[t L] r IH]; intros k; [reflexivity|]. cbn [pfind_gens walk]. unfold tfP4 at 1. cbn [fst snd].
+  destruct (pfind t L key h) as [[[b s]|]| | |]; try reflexivity.
+  - cbn [shiftg]. rewrite Nat.add_0_r. reflexivity.
+  - rewrite IH. destruct (pfind_gens r key h) as [[[[g b] s]|]| | |]; try reflexivity. cbn [shiftg]. rewrite Nat.add_succ_r. reflexivity.
 Qed.
 
-Lemma p4_find_in_ok gens key ic p pred : p4_find_in gens key ic p pred = find_in_of _ (tfP4 key) (encI it) gens ic p pred.
+Hypothesis Hheaps : p4_heaps_ok.
+Hypothesis Hchain : chain_ok _ gens gptr buckets_next.
+
+Lemma p4_find_in_ok : find_in_ok _ tfP4 it gens gptr p4_find_in.
 Proof.
-  unfold p4_find_in, find_in_of. destruct (nth_error gens (Z.to_nat (p - 1))) as [[t L]|]; [|reflexivity].
-  cbn [fst snd]. rewrite p4_findin_refines by exact it_nz. unfold tfP4. cbn [fst snd]. destruct (pfind t L key ic); reflexivity.
+  intros i [t L] ic pred Hi. unfold p4_find_in. rewrite (p4_findin_refines t L key (it i) (it_nz i) _ _ _ _ _ _ (Hheaps i t L Hi)).
+  unfold tfP4. cbn [fst snd]. destruct (pfind t L key ic) as [[[b s]|]| | |]; reflexivity.
 Qed.
 
-Theorem hsfind_p4_refines key gens mCount ht pred : pgens_inv H hash gens -> gens <> [] -> (length gens <= 70)%nat -> mCount <> 0 ->
-  pvFindKey false hash (p4_find_in gens key) (next_of _ gens) mCount 1 key ht pred
-  = Ok (encw (encI it) (pfind_gens gens key (hash key))).
+Theorem hsfind_p4_refines mCount ht pred : pgens_inv H hash gens -> gens <> [] -> (length gens <= 70)%nat -> mCount <> 0 ->
+  pvFindKey false hash p4_find_in buckets_next mCount (gptr 0) key ht pred
+  = Ok (resw it (hash key) (pfind_gens gens key (hash key))).
 Proof.
-  intros Hinv Hg Hl Hc. rewrite pfind_gens_walk. apply pvFindKey_walk; try assumption; try reflexivity.
-  - intros [b s]. apply it_nz.
-  - intros. apply p4_find_in_ok.
+  intros Hinv Hg Hl Hc.
+  rewrite (pvFindKey_walk _ tfP4 it it_nz gens gptr hash p4_find_in buckets_next Hchain p4_find_in_ok); try assumption.
+  - rewrite pfind_gens_walk. destruct (pfind_gens gens key (hash key)) as [[[[g b] s]|]| | |]; reflexivity.
   - intros h. unfold pgens_inv in Hinv. eapply Forall_impl; [|exact Hinv]. intros [t L] (HL & _). cbn [fst snd] in HL.
     destruct (pfind_total L t key h HL) as (r & Hr & _). exists r. exact Hr.
 Qed.
 
-(* the generated Find finds every key stored in any generation: a non-null iterator that names a slot holding the key *)
-Theorem hsfind_p4_present key gens mCount ht pred : pgens_inv H hash gens -> (length gens <= 70)%nat -> mCount <> 0 ->
+(* the generated Find finds every key stored in any generation: a non-null iterator that names a slot holding the key, and the
+   by-reference indexCode is that slot's bucket index *)
+Theorem hsfind_p4_present mCount ht pred : pgens_inv H hash gens -> (length gens <= 70)%nat -> mCount <> 0 ->
   (exists g, In g gens /\ PPresent (snd g) (fst g) key) ->
-  exists g b s, pvFindKey false hash (p4_find_in gens key) (next_of _ gens) mCount 1 key ht pred = Ok (it b s)
-                /\ it b s <> 0 /\ pgens_hit gens key (g, b, s).
+  exists g b s, pvFindKey false hash p4_find_in buckets_next mCount (gptr 0) key ht pred = Ok (b, it g b s)
+                /\ it g b s <> 0 /\ pgens_hit gens key (g, b, s).
 Proof.
   intros Hinv Hl Hc Hex. assert (Hg : gens <> []) by (destruct Hex as (g & Hin & _); destruct gens; [destruct Hin|discriminate]).
-  rewrite (hsfind_p4_refines key gens mCount ht pred Hinv Hg Hl Hc).
-  destruct (pfind_gens_present H hash key gens Hinv Hex) as ([[g b] s] & Hr & Hhit). rewrite Hr. cbn [encw encI].
+  rewrite (hsfind_p4_refines mCount ht pred Hinv Hg Hl Hc).
+  destruct (pfind_gens_present H hash key gens Hinv Hex) as ([[g b] s] & Hr & Hhit). rewrite Hr. cbn [resw].
   exists g, b, s. split; [reflexivity|]. split; [apply it_nz|exact Hhit].
 Qed.
 End HSFindP4.
@@ -333,47 +346,77 @@ End HSFindP4.
 (* ---- Open2N2 ---- *)
 Section HSFindO2.
 Variable hash : Z -> Z.
-Variable it : Z -> Z -> Z.
-Hypothesis it_nz : forall b s, it b s <> 0.
+Variable it : nat -> Z -> Z -> Z.
+Hypothesis it_nz : forall g b s, it g b s <> 0.
+Variables (gptr : nat -> Z) (bk_count bk_logcount : Z -> Z) (b_find : Z -> Z -> Z -> Z -> Z) (b_maxprobe : Z -> Z -> Z) (b_wasfull : Z -> bool)
+          (bk_at : Z -> Z -> Z) (buckets_next : Z -> Z).
+Variable gens : list (table * Z).
+Variable key : Z.
 
-Definition tfO2 (key : Z) (h : Z) (g : table * Z) := find (fst g) (snd g) key h.
-Definition o2_find_in (gens : list (table * Z)) (key ic p pred : Z) : Z :=
-  match nth_error gens (Z.to_nat (p - 1)) with
-  | Some g => unwrapZ (o2_findin (fst g) (snd g) key it ic p pred 0)
-  | None => 0
-  end.
+Definition tfO2 (h : Z) (g : table * Z) := find (fst g) (snd g) key h.
+Definition o2_heaps_ok : Prop := forall i t L, nth_error gens i = Some (t, L) ->
+  o2_heap_ok t L key (it i) (gptr i) bk_count bk_logcount b_find b_maxprobe b_wasfull bk_at.
+Definition o2_find_in (ic p pred : Z) : Z * Z := unwrapP ic (o2_findin p bk_count bk_logcount b_find b_maxprobe b_wasfull bk_at ic pred 0).
 
-Lemma find_gens_walk key h gens : find_gens gens key h = walk _ (tfO2 key) h gens.
+Lemma find_gens_walk h : forall l k, walk _ tfO2 k h l = shiftg k (find_gens l key h).
 Proof.
-  induction gens as [|[t L] r IH]; [reflexivity|]. cbn [find_gens walk]. unfold tfO2 at 1. cbn [fst snd].
-  rewrite IH. reflexivity.
+  induction l as [|[t L] r IH]; intros k; [reflexivity|]. cbn [find_gens walk]. unfold tfO2 at 1. cbn [fst snd].
+  destruct (find t L key h) as [[[b s]|]| | |]; try reflexivity.
+  - cbn [shiftg]. rewrite Nat.add_0_r. reflexivity.
+  - rewrite IH. destruct (find_gens r key h) as [[[[g b] s]|]| | |]; try reflexivity. cbn [shiftg]. rewrite Nat.add_succ_r. reflexivity.
 Qed.
 
-Lemma o2_find_in_ok gens key ic p pred : o2_find_in gens key ic p pred = find_in_of _ (tfO2 key) (encI it) gens ic p pred.
+Hypothesis Hheaps : o2_heaps_ok.
+Hypothesis Hchain : chain_ok _ gens gptr buckets_next.
+
+Lemma o2_find_in_ok : find_in_ok _ tfO2 it gens gptr o2_find_in.
 Proof.
-  unfold o2_find_in, find_in_of. destruct (nth_error gens (Z.to_nat (p - 1))) as [[t L]|]; [|reflexivity].
-  cbn [fst snd]. rewrite o2_findin_refines by exact it_nz. unfold tfO2. cbn [fst snd]. destruct (find t L key ic); reflexivity.
+  intros i [t L] ic pred Hi. unfold o2_find_in. rewrite (o2_findin_refines t L key (it i) (it_nz i) _ _ _ _ _ _ _ (Hheaps i t L Hi)).
+  unfold tfO2. cbn [fst snd]. destruct (find t L key ic) as [[[b s]|]| | |]; reflexivity.
 Qed.
 
-Theorem hsfind_o2_refines key gens mCount ht pred : gens_inv hash gens -> gens <> [] -> (length gens <= 70)%nat -> mCount <> 0 ->
-  pvFindKey false hash (o2_find_in gens key) (next_of _ gens) mCount 1 key ht pred
-  = Ok (encw (encI it) (find_gens gens key (hash key))).
+Theorem hsfind_o2_refines mCount ht pred : gens_inv hash gens -> gens <> [] -> (length gens <= 70)%nat -> mCount <> 0 ->
+  pvFindKey false hash o2_find_in buckets_next mCount (gptr 0) key ht pred
+  = Ok (resw it (hash key) (find_gens gens key (hash key))).
 Proof.
-  intros Hinv Hg Hl Hc. rewrite find_gens_walk. apply pvFindKey_walk; try assumption; try reflexivity.
-  - intros [b s]. apply it_nz.
-  - intros. apply o2_find_in_ok.
+  intros Hinv Hg Hl Hc.
+  rewrite (pvFindKey_walk _ tfO2 it it_nz gens gptr hash o2_find_in buckets_next Hchain o2_find_in_ok); try assumption.
+  - rewrite find_gens_walk. destruct (find_gens gens key (hash key)) as [[[[g b] s]|]| | |]; reflexivity.
   - intros h. unfold gens_inv in Hinv. eapply Forall_impl; [|exact Hinv]. intros [t L] (HL & Ht). cbn [fst snd] in HL, Ht.
     destruct (find_total hash L t key h Ht) as (r & Hr & _). exists r. exact Hr.
 Qed.
 
-Theorem hsfind_o2_present key gens mCount ht pred : gens_inv hash gens -> (length gens <= 70)%nat -> mCount <> 0 ->
+Theorem hsfind_o2_present mCount ht pred : gens_inv hash gens -> (length gens <= 70)%nat -> mCount <> 0 ->
   (exists g, In g gens /\ Present (snd g) (fst g) key) ->
-  exists g b s, pvFindKey false hash (o2_find_in gens key) (next_of _ gens) mCount 1 key ht pred = Ok (it b s)
-                /\ it b s <> 0 /\ gens_hit gens key (g, b, s).
+  exists g b s, pvFindKey false hash o2_find_in buckets_next mCount (gptr 0) key ht pred = Ok (b, it g b s)
+                /\ it g b s <> 0 /\ gens_hit gens key (g, b, s).
 Proof.
   intros Hinv Hl Hc Hex. assert (Hg : gens <> []) by (destruct Hex as (g & Hin & _); destruct gens; [destruct Hin|discriminate]).
-  rewrite (hsfind_o2_refines key gens mCount ht pred Hinv Hg Hl Hc).
-  destruct (find_gens_present hash key gens Hinv Hex) as ([[g b] s] & Hr & Hhit). rewrite Hr. cbn [encw encI].
+  rewrite (hsfind_o2_refines mCount ht pred Hinv Hg Hl Hc).
+  destruct (find_gens_present hash key gens Hinv Hex) as ([[g b] s] & Hr & Hhit). rewrite Hr. cbn [resw].
   exists g, b, s. split; [reflexivity|]. split; [apply it_nz|exact Hhit].
 Qed.
 End HSFindO2.
+
+(* the hypotheses are satisfiable: the layout "generation i at pointer i+1, bucket j of it at pointer 2^32*(i+1)+j" with the model's
+   own leaves as the methods (so the theorems above are not vacuous) -- for the generation chain *)
+Lemma chain_ok_example (A : Type) (gens : list A) :
+  chain_ok A gens (fun i => Z.of_nat i + 1) (fun p => if p <? Z.of_nat (length gens) then p + 1 else 0).
+Proof.
+  split; [intros; lia|]. split; intros i Hi.
+  - destruct (Z.ltb_spec (Z.of_nat i + 1) (Z.of_nat (length gens))); lia.
+  - destruct (Z.ltb_spec (Z.of_nat i + 1) (Z.of_nat (length gens))); lia.
+Qed.
+
+(* ... and for one bucket array (bucket pointer = bucket index) *)
+Lemma p4_heap_ok_example t L key itb bks :
+  p4_heap_ok t L key itb bks (fun _ => wrapU 64 (Z.shiftl 1 L)) (fun _ => L)
+    (fun b _ _ h => match pbucket_find (t b) key h with Ok r => if r =? 0 then 0 else itb b (r - 1) | _ => 0 end)
+    (fun b => was_full (t b)) (fun _ i => i).
+Proof. repeat split. Qed.
+
+Lemma o2_heap_ok_example t L key itb bks :
+  o2_heap_ok t L key itb bks (fun _ => wrapU 64 (Z.shiftl 1 L)) (fun _ => L)
+    (fun b _ _ h => match bucket_find (t b) key h with Ok r => if r =? 0 then 0 else itb b (r - 1) | _ => 0 end)
+    (fun b _ => Gen_O2MP.GetMaxProbe (bst (t b))) (fun b => Gen_O2.WasFull (bst (t b)) (bsh (t b)) (bhp (t b))) (fun _ i => i).
+Proof. repeat split. Qed.
